@@ -130,6 +130,23 @@ func c17Alt(s string) string {
 	return s[:len(s)-1] + c
 }
 
+// c17Case is s with the letter case of its first character flipped ("" if that changes nothing).
+func c17Case(s string) string {
+	if s == "" {
+		return ""
+	}
+	c := s[0]
+	switch {
+	case c >= 'a' && c <= 'z':
+		c -= 32
+	case c >= 'A' && c <= 'Z':
+		c += 32
+	default:
+		return ""
+	}
+	return string(c) + s[1:]
+}
+
 // uniq keeps the first occurrence of every name that is non-empty and not excluded.
 func c17Uniq(names []string, exclude ...string) []string {
 	var out []string
@@ -164,19 +181,19 @@ func c17Steps(m c17Model, gen func(string) string) []c17Step {
 			}
 		}
 		st = append(st, c17Step{Kind: "001same", A: m.Cur})
-		for _, n := range c17Uniq([]string{"neo", c17Prefix(m.Cur), m.Sent, m.Cur + "x"}, m.Cur) {
+		for _, n := range c17Uniq([]string{"neo", c17Prefix(m.Cur), m.Sent, m.Cur + "x", c17Case(m.Cur)}, m.Cur) {
 			st = append(st, c17Step{Kind: "001diff", A: n})
 		}
 		return st
 	}
-	for _, x := range c17Uniq([]string{"neo", m.Prev, m.Cur + "x", c17Alt(m.Cur)}, m.Cur) {
+	for _, x := range c17Uniq([]string{"neo", m.Prev, m.Cur + "x", c17Alt(m.Cur), c17Case(m.Cur)}, m.Cur) {
 		st = append(st, c17Step{Kind: "nick-ok", A: x})
 		st = append(st, c17Step{Kind: "nick-refused", A: x})
 		if g := gen(x); g != m.Cur && g != "" {
 			st = append(st, c17Step{Kind: "nick-refused-then-ok", A: x, B: g})
 		}
 	}
-	for _, y := range c17Uniq([]string{"kim", m.Prev, c17Prefix(m.Cur), m.Cur}) {
+	for _, y := range c17Uniq([]string{"kim", m.Prev, c17Prefix(m.Cur), m.Cur, c17Case(m.Cur)}) {
 		st = append(st, c17Step{Kind: "forced", A: y})
 	}
 	// other users: names equal to / prefixes of / one character from the
@@ -612,7 +629,7 @@ func c17VariantsJob() Job {
 		for _, track := range []bool{false, true} {
 			for _, stateful := range []bool{false, true} {
 				for coll := 0; coll <= 3; coll++ {
-					for _, mask := range []bool{true, false} {
+					for _, mask := range []string{"own", "none", "foreign", "requested"} {
 						for _, other := range []bool{false, true} {
 							var outputs []string
 							gen := func(old string) string {
@@ -620,7 +637,7 @@ func c17VariantsJob() Job {
 								outputs = append(outputs, n)
 								return n
 							}
-							in := fmt.Sprintf("track=%v stateful-generator=%v collisions=%d welcome-mask=%v welcome-other-nick=%v", track, stateful, coll, mask, other)
+							in := fmt.Sprintf("track=%v stateful-generator=%v collisions=%d welcome-mask=%s welcome-other-nick=%v", track, stateful, coll, mask, other)
 							params := map[string]interface{}{"tracking": track, "stateful": stateful, "collisions": coll, "mask": mask, "other": other}
 							var fails []string
 							o := RunSeq(vx.Options{MaxSteps: 200000}, func(env *vx.Env) {
@@ -667,8 +684,13 @@ func c17VariantsJob() Job {
 									wn = "bobby" // the server changed (e.g. truncated) the nick on connect
 								}
 								text := "Welcome to the Internet Relay Network"
-								if mask {
+								switch mask {
+								case "own":
 									text += " " + wn + "!ident@host.example"
+								case "foreign": // the text ends in somebody else's mask
+									text += ", report problems to ops!staff@example.org"
+								case "requested": // the mask still shows the nick that was asked for
+									text += " " + cur + "!ident@host.example"
 								}
 								s.Feed(":srv 001 " + wn + " :" + text)
 								cfgMe := s.C.Config().Me
@@ -677,6 +699,13 @@ func c17VariantsJob() Job {
 									fails = append(fails, "me-nil|Me() or Config().Me is nil after the welcome")
 								} else if me.Nick != wn {
 									fails = append(fails, fmt.Sprintf("me-nick|the welcome line was addressed to %q but Me().Nick is %q", wn, me.Nick))
+								}
+								// the client's next own rename is recognised as its own
+								s.Feed(":" + wn + "!ident@host.example NICK :neo")
+								if me := s.C.Me(); me == nil || s.C.Config().Me == nil {
+									fails = append(fails, "me-nil|Me() or Config().Me is nil after a rename following the welcome")
+								} else if me.Nick != "neo" {
+									fails = append(fails, fmt.Sprintf("me-nick|after the welcome to %q the server renamed the client to \"neo\" but Me().Nick is %q", wn, me.Nick))
 								}
 								s.End()
 							})
@@ -693,7 +722,7 @@ func c17VariantsJob() Job {
 				}
 			}
 		}
-		e.Sample(map[string]interface{}{"example": "track=true stateful-generator=true collisions=2 welcome-mask=false welcome-other-nick=true"})
+		e.Sample(map[string]interface{}{"example": "track=true stateful-generator=true collisions=2 welcome-mask=none welcome-other-nick=true"})
 		return e.Done()
 	}}
 }
@@ -701,7 +730,7 @@ func c17VariantsJob() Job {
 func init() {
 	Register(&Prop{
 		ID:   "C17",
-		Rule: "the MODEL (server's view: phase, current and previous nick, outstanding request, collisions so far) is walked breadth-first over the alphabet {433 for the requested nick / for another nick, 001 to the requested / another nick, client Nick(x) confirmed / refused / refused and the follow-up confirmed, forced NICK, other users' NICK between names equal to, prefixes of and one character from the client's current and previous nick}, keeping the shortest script P (shorter than the tier's length: quick 4, thorough 6; at most 3 collisions before the welcome) per distinct model state; for every such state the real client is run, from a fresh connect each time, on P+c for every view-changing symbol c, on P followed by all view-preserving symbols in a row (judged after each), and on P + that row + c; x tracking on/off x generator {default, s+\"^\", constant \"zed\"; s+\"^\" installed through Config() after Client() returned} x nick {bob, w9} x (tracked only) Me() read at every step / only after the last step. One case = one judged (configuration, script); failures are minimised by dropping view-preserving steps. Family default-generator: DefaultNewNick on all 256 last bytes x 3 prefixes",
+		Rule: "the MODEL (server's view: phase, current and previous nick, outstanding request, collisions so far) is walked breadth-first over the alphabet {433 for the requested nick / for another nick, 001 to the requested / another nick, client Nick(x) confirmed / refused / refused and the follow-up confirmed, forced NICK, other users' NICK between names equal to, prefixes of and one character from the client's current and previous nick; new nicks include the current one with the case of its first letter flipped}, keeping the shortest script P (shorter than the tier's length: quick 4, thorough 6; at most 3 collisions before the welcome) per distinct model state; for every such state the real client is run, from a fresh connect each time, on P+c for every view-changing symbol c, on P followed by all view-preserving symbols in a row (judged after each), and on P + that row + c; x tracking on/off x generator {default, s+\"^\", constant \"zed\"; s+\"^\" installed through Config() after Client() returned} x nick {bob, w9} x (tracked only) Me() read at every step / only after the last step. One case = one judged (configuration, script); failures are minimised by dropping view-preserving steps. Family default-generator: DefaultNewNick on all 256 last bytes x 3 prefixes",
 		Assumptions: []string{
 			"a 433 naming a nick the client does not hold leaves the server's view unchanged; the NICK the client sends in answer stays outstanding (the script may later address the welcome to it)",
 			"'character' in 'differs only in its last character' is a byte (IRC nicks are byte strings); DefaultNewNick(\"\") is only required not to panic",
